@@ -99,6 +99,7 @@ type Contract struct {
 	NoPanic        bool
 	NoPanicProps   []string
 	NoPanicTrusted bool
+	Implementers   []string
 	PanicsOnly     *CE // panics only if P (nopanic under !P)
 	IntsBV         bool
 	Pure           bool // no heap effect, deterministic: callers may treat as function of args (+heap)
@@ -139,7 +140,7 @@ type SpecFile struct {
 }
 
 var clauseKW = map[string]bool{
-	"func": true, "extern": true, "trusted_nopanic": true, "requires": true, "ensures": true, "checks": true, "panic_ensures": true, "trusted_ensures": true, "modifies": true,
+	"func": true, "extern": true, "trusted_nopanic": true, "implementers": true, "requires": true, "ensures": true, "checks": true, "panic_ensures": true, "trusted_ensures": true, "modifies": true,
 	"invariant": true, "decreases": true, "unroll": true, "nopanic": true, "maypanic": true, "panics_only_if": true,
 	"ints": true, "pure": true, "serves": true, "ghost": true, "ghost_entry": true, "ghost_exit": true,
 	"axiom": true, "lemma": true, "const": true, "smt": true, "package": true, "inline": true, "opt": true,
@@ -188,7 +189,7 @@ func readClauses(path string, goFile bool) ([]string, error) {
 	return out, nil
 }
 
-var reFuncHdr = regexp.MustCompile(`^func\s*(?:\(\s*(\w+)\s+([^)]+?)\s*\))?\s*([\w./]+)\s*\(([^)]*)\)\s*(?:\(([^)]*)\))?\s*$`)
+var reFuncHdr = regexp.MustCompile(`^func\s*(?:\(\s*(\w+)\s+([^)]+?)\s*\))?\s*([\w./\-]+)\s*\(([^)]*)\)\s*(?:\(([^)]*)\))?\s*$`)
 
 func splitNames(s string) []string {
 	var r []string
@@ -353,6 +354,14 @@ func parseSpecFile(path string, goFile bool, defaultPkg string) (*SpecFile, erro
 			cur.NoPanic = true
 			cur.NoPanicTrusted = true
 			sf.Trusted = append(sf.Trusted, "  "+cur.Header+" :: "+cl)
+		case "implementers":
+			// closed world of an interface-method contract: the repository methods implementing it, each of which must be
+			// checked against (at least) the same no-panic clause and a frame inside this contract's modifies list
+			for _, it := range strings.Split(rest, ",") {
+				if it = strings.TrimSpace(it); it != "" {
+					cur.Implementers = append(cur.Implementers, it)
+				}
+			}
 		case "maypanic":
 			cur.NoPanic = false
 		case "panics_only_if":
